@@ -319,6 +319,49 @@ static void fnptr_cast_pair(mon::Rng& rng)
   mon::distinct(mon::mix(0xf9, mon::mix(std::hash<std::string>()(typeid(L).name()), std::hash<std::string>()(typeid(R).name()))));
 }
 
+// sandbox_static_cast between class pointers: the one pointer cast that legitimately moves the address (base sub-object
+// adjustment).  The result must be exactly what the C++ cast yields on the raw pointer, and a result that leaves the sandbox
+// - in EITHER direction: past the end for an upcast near the end, before the start for a downcast near the start - must abort
+namespace c20h {
+struct B1 { int a; };
+struct B2 { int b; };
+struct D : B1, B2 { int c; };
+}
+static uint64_t n_hier_ok = 0, n_hier_abort = 0;
+static void class_pointer_casts(mon::Rng& rng)
+{
+  using namespace c20h;
+  const uintptr_t base = Wd::base(*SB), size = Wd::size(*SB);
+  const ptrdiff_t adj = reinterpret_cast<char*>(static_cast<B2*>(reinterpret_cast<D*>(4096))) - reinterpret_cast<char*>(4096); // offset of B2 in D
+  std::vector<uint64_t> offs = { 0, 4, 8, 64, size - 16, size - 12, size - 8, size - 4 };
+  for (int i = 0; i < mon::tier(16, 400); i++) offs.push_back(4 * rng.below(size / 4));
+  for (uint64_t off : offs) {
+    for (int dir = 0; dir < 2; dir++) {
+      uintptr_t from = base + off, got = 0;
+      int64_t want_off = dir == 0 ? int64_t(off) + adj : int64_t(off) - adj;
+      bool inside = want_off >= 0 && uint64_t(want_off) < size;
+      mon::ctx("static-cast/class-pointers | %s at offset %llu", dir == 0 ? "D* -> B2* (up)" : "B2* -> D* (down)", (unsigned long long)off);
+      bool ab = mon::aborts([&] {
+        if (dir == 0) { auto p = sandbox_reinterpret_cast<D*>(Wd::tptr<char>(*SB, off)); got = reinterpret_cast<uintptr_t>(sandbox_static_cast<B2*>(p).UNSAFE_unverified()); }
+        else { auto p = sandbox_reinterpret_cast<B2*>(Wd::tptr<char>(*SB, off)); got = reinterpret_cast<uintptr_t>(sandbox_static_cast<D*>(p).UNSAFE_unverified()); }
+      });
+      mon::evals();
+      mon::distinct(mon::mix(0xc1a55, mon::mix(off, dir)));
+      (void)from;
+      if (inside) {
+        if (ab) report("static-cast-class-pointer", "spurious-abort", mon::fmt("offset %llu dir %d", (unsigned long long)off, dir));
+        else if (got != base + uint64_t(want_off)) report("static-cast-class-pointer", "wrong-address", mon::fmt("offset %llu dir %d: base%+lld, C++ yields base%+lld", (unsigned long long)off, dir, (long long)(got - base), (long long)want_off));
+        else n_hier_ok++;
+      } else {
+        if (!ab) report("static-cast-class-pointer", "moved-out-of-the-sandbox-without-abort", mon::fmt("%s at offset %llu yields base%+lld", dir == 0 ? "upcast" : "downcast", (unsigned long long)off, (long long)(got - base)));
+        else n_hier_abort++;
+      }
+    }
+  }
+  mon::hit("class-pointer-static-casts-exact", n_hier_ok);
+  mon::hit("class-pointer-static-casts-refused-at-the-region-edges", n_hier_abort);
+}
+
 static void pointer_opaque(mon::Rng& rng)
 {
   // pointers, pointer-to-pointer, arrays, structs: opaque round trip by bytes
@@ -386,6 +429,7 @@ int main(int argc, char** argv)
     opaque_roundtrip<E16>(rng);
     opaque_roundtrip<signed char>(rng);
     pointer_opaque(rng);
+    class_pointer_casts(rng);
     ptr_cast_pair<K_REINT, char*, int*>(rng);
     ptr_cast_pair<K_REINT, int*, char*>(rng);
     ptr_cast_pair<K_REINT, void*, long*>(rng);
